@@ -115,7 +115,13 @@ def evaluate(case):
         adj = (st_ > 0 and ord(text[st_ - 1]) > 127) or (en < len(text) and ord(text[en]) > 127)
         mb_adjacent = mb_adjacent or adj
         if k not in B:
-            res.v(f"candidate-missing:{k[0]}:{'multibyte-neighbour' if adj else 'ascii-neighbour'}", f"reference candidate {k[:4]} not reported by Hyperscan in {text!r}")
+            shifted = (k[0], k[1] - 1, k[2], " " + k[3])
+            if k[1] > 0 and text[k[1] - 1] == " " and any(b[:4] == shifted for b in B):
+                # the same match, reported by Hyperscan with the optional leading space of its template because the
+                # boundary character in front of it was consumed by the previous match of the same pattern
+                res.v(f"candidate-shifted:shared-boundary-optional-space:{k[0]}", f"reference candidate {k[:4]} is reported by Hyperscan as {shifted} in {text!r}")
+            else:
+                res.v(f"candidate-missing:{k[0]}:{'multibyte-neighbour' if adj else 'ascii-neighbour'}", f"reference candidate {k[:4]} not reported by Hyperscan in {text!r}")
     extras = [k for k in B if k not in A]
     if extras:
         res.label("extra-candidates")
